@@ -19,6 +19,9 @@ RULE = (
     "evaluated, or a structural call acted on a block of >= 2 members; distinct = (call, entry, storage, "
     "representation, block size, spread, layout hash)."
 )
+from pw_verif.props._machine import HISTORY_NOTE, SURVIVOR_NOTE  # noqa: E402,F401
+
+RULE += SURVIVOR_NOTE + HISTORY_NOTE
 ASSUMPTIONS = ["reference self-tests passed", "a returned (d,1) vector is compared as a ray (norm and global phase ignored)",
                "CompositeEnvelope.trace_out is asked only when at least one requested subsystem is stored in one of its product spaces"]
 
